@@ -219,13 +219,14 @@ func (e *valEnv) build(nn gpbft.NetworkName, senderIdx int, p gpbft.Payload, jus
 func (e *valEnv) validMsg(inst, round uint64, phase gpbft.Phase, value *gpbft.ECChain) *gpbft.GMessage {
 	r := e.r
 	cm := e.cmts[inst]
-	sender := 0
-	for k := 0; k < 10; k++ {
-		sender = r.intn(len(cm.PowerTable.Entries))
-		if cm.PowerTable.ScaledPower[sender] > 0 {
-			break
+	// a sender with non-zero scaled power (a zero-power member cannot sign: MessageBuilder refuses)
+	var powered []int
+	for i, sp := range cm.PowerTable.ScaledPower {
+		if sp > 0 {
+			powered = append(powered, i)
 		}
 	}
+	sender := powered[r.intn(len(powered))]
 	bottom := &gpbft.ECChain{}
 	p := gpbft.Payload{Instance: inst, Round: round, Phase: phase, SupplementalData: e.supp, Value: value}
 	var just *gpbft.Justification
